@@ -59,11 +59,15 @@ Definition k_map (cm : connmap) (ns : list pname) : list Z :=
 Definition enc_constr (c : constr) : list Z :=
   enc_path (fst (c_port c)) ++ [snd (c_port c); match c_bit c with Some k => k | None => -1 end; c_pin c]
   ++ enc_alist (c_attrs c).
-Definition k_constraints (t : table) (cm : connmap) (h : list req) (with_n with_attrs with_clocks : bool) : list Z :=
+(* which I/O ports of a granted port the design uses: io / p always; n depending on the vendor's buffers
+   (mode 0: never — ECP5; 1: always — Gowin; 2: only for outputs — iCE40) *)
+Definition used_ioports (mode : Z) (p : port) : list ioport :=
+  filter (fun io => negb (snd (io_name io) =? 2) || (mode =? 1) || ((mode =? 2) && dirs_eqb (pt_dir p) Do))
+         (port_ioports p).
+Definition k_constraints (t : table) (cm : connmap) (h : list req) (mode : Z) (with_attrs with_clocks : bool) : list Z :=
   let (st, outs) := run t cm h in
-  let ports := concat (map (fun qv => value_ioports (snd qv)) (granted outs)) in
-  (* iCE40/ECP5 buffers use only the p port of a differential pair: n is not a design port *)
-  let used := filter (fun p => with_n || negb (snd (io_name p) =? 2)) ports in
+  let used := concat (map (fun qv => concat (map (fun l => used_ioports mode (lv_port l)) (leaves (snd qv))))
+                          (granted outs)) in
   let cs := port_constraints used in
   let cks := if with_clocks then clock_constraints st else [] in
   [zlen cs] ++ concat (map (fun c => enc_constr (if with_attrs then c else mkC (c_port c) (c_bit c) (c_pin c) [])) cs)
